@@ -42,6 +42,7 @@ type StateProj struct {
 	Wq      []WqProj            `json:"wq"`
 	Refund  uint64              `json:"refund"`
 	Logs    int                 `json:"logs"`
+	Pre     []int               `json:"pre"`
 	Records map[string]int64    `json:"records,omitempty"`
 }
 
@@ -167,6 +168,14 @@ func ProjectState(st *state.StateDB, names Names, accts, vals []common.Address, 
 	}
 	p.Refund = st.GetRefund()
 	p.Logs = st.VerifLogCount()
+	// preimages recorded by the fixture are single bytes: project them as small ints, sorted
+	p.Pre = []int{}
+	for _, pi := range st.Preimages() {
+		if len(pi) == 1 {
+			p.Pre = append(p.Pre, int(pi[0]))
+		}
+	}
+	sort.Ints(p.Pre)
 	return p
 }
 
